@@ -190,9 +190,9 @@ func render(r *common.Rng, rules []Rule, c *Case) {
 		fmt.Fprintf(&sb, "%s%d %d %d %d DSKR%s", hintPrefix, nd, ns, nk, nr, eol())
 	default: // no hint
 	}
-	if r.Chance(1, 25) { // a well-formed hint with absurd numbers: the map hint is dropped by make(map, n); a keyword or
-		// regexp hint above 2^44 violates the precondition of make([]string, 0, n) (values in between would really
-		// allocate: those are run in a memory-limited child by the directed probe only)
+	if r.Chance(1, 25) { // a well-formed hint with absurd numbers (HintPanic: beyond the precondition of make([]string, 0, n)):
+		// since e3a55d9 every hint is clamped by the size of the text, so these load like any other file; before, the
+		// keyword/regexp ones panicked ("makeslice: cap out of range")
 		sb.Reset()
 		huge := []string{"17592186044417", "9223372036854775807", "4611686018427387904"}
 		d, k, rx := "0", "0", "0"
@@ -209,9 +209,6 @@ func render(r *common.Rng, rules []Rule, c *Case) {
 			k = "1048576" // 2^20 strings = 16 MiB: really allocated
 		}
 		fmt.Fprintf(&sb, "%s%s %d %s %s DSKR%s", hintPrefix, d, r.Intn(5), k, rx, eol())
-		if c.HintPanic {
-			c.TextOK = false
-		}
 	}
 	if r.Chance(1, 30) { // a malformed hint as the first line
 		c.HintPanic = false
